@@ -21,6 +21,12 @@ theorem C13_lookup_unambiguous : ∀ c ∈ Generated.allConfigs, ambiguousParams
 /-- under the latest (fallback) table every defined data-rate has a size, and unknown version / revision strings resolve to it -/
 theorem C13_latest : ∀ c ∈ Generated.allConfigs, latestViolations c = [] := by decide +kernel
 
+/-- the max-payload tables are filed under keys of the right kind (protocol versions outside, regional-parameters revisions inside,
+"latest" in both): no table is out of reach of the (version, revision) lookup, and a string that is not a protocol version
+resolves to the latest table.  (False before the repair recorded as c13-as923-rp002-table-misfiled: the AS923 configuration
+"not repeater compatible, no dwell time" kept its RP002-1.0.0 table under the protocol-version key "RP002-1.0.0".) -/
+theorem C13_keys : ∀ c ∈ Generated.allConfigs, keyKindViolations c = [] := by decide +kernel
+
 /-- every listed size satisfies M = N + 8 and N ≤ 242 ((0,0) is the Regional Parameters' "N/A" marker) -/
 theorem C13_sizes : ∀ c ∈ Generated.allConfigs, sizeViolations c = [] := by decide +kernel
 
